@@ -351,6 +351,7 @@ func runExchange(t *verifsim.Tape, cfg engine.Config, prop string) *engine.Outco
 		var brokenSite *gen.Site
 		var scriptErr error
 		var wantErr *spec.ErrorDef
+		var errModel any
 		switch prop {
 		case "C14":
 			mode = []string{"valid", "invalid-payload", "invalid-payload", "boundary-ok", "declared"}[t.Draw("c14-mode", 5)]
@@ -450,12 +451,24 @@ func runExchange(t *verifsim.Tape, cfg engine.Config, prop string) *engine.Outco
 			brokenSite = &st
 		case "declared", "wrapped-declared":
 			all := append(append([]*spec.ErrorDef{}, m.Errors...), s.Errors...)
-			all = append(all, d.Errors...)
 			if len(all) == 0 {
 				mode = "valid"
 				break
 			}
 			wantErr = all[t.Draw("which-error", len(all))]
+			if wantErr.Type != nil {
+				// an error with a designed type of its own: the stub returns a value of the generated type
+				ev, model, err := customErrorValue(t, d, sh, wantErr)
+				if err != nil {
+					o.Violate("harness_glue", "harness_glue", "%s: custom error %q: %v", where, wantErr.Name, err)
+					return o
+				}
+				scriptErr, errModel = ev, model
+				if mode == "wrapped-declared" {
+					scriptErr = fmt.Errorf("wrapped: %w", scriptErr)
+				}
+				break
+			}
 			mk := sh.Maker(wantErr.Name)
 			if mk == nil {
 				o.Violate("harness_glue", "harness_glue", "no Make function for declared error %q in %s", wantErr.Name, where)
@@ -655,7 +668,11 @@ func runExchange(t *verifsim.Tape, cfg engine.Config, prop string) *engine.Outco
 				o.Violate("invalid_result_error", "invalid_result_error:"+n+":"+sig, "%s: result violating %s at %s made the client fail with %v", where, brokenSite.Rule, brokenSite.Path, cerr)
 			}
 		default:
-			judgeError(o, w, d, s, m, ex, mode, wantErr, scriptErr, cerr, where, sig)
+			if wantErr != nil && wantErr.Type != nil {
+				judgeCustomError(o, w, d, s, m, ex, mode, wantErr, errModel, cerr, where, sig)
+			} else {
+				judgeError(o, w, d, s, m, ex, mode, wantErr, scriptErr, cerr, where, sig)
+			}
 		}
 	}
 	ks := make([]string, 0, len(distinct))
@@ -1543,6 +1560,23 @@ func judgeContract(o *engine.Outcome, w *world, d *spec.Design, design string, s
 			o.Violate("contract_response", "response:unsigned-documented-as-signed-format", "%s: the %d response does not conform to openapi3.json: %v\n  body %q", where, ex.Status, firstLine(rerr.Error()), clipS(string(ex.RespBody)))
 			rerr = nil
 		}
+		if rerr != nil && ex.Status >= 400 {
+			// one status code documents one schema: errors of different types mapped to the same status
+			kinds := map[string]bool{}
+			for _, e := range append(append([]*spec.ErrorDef{}, m.Errors...), s.Errors...) {
+				if e.Status == ex.Status {
+					k := "ErrorResult"
+					if e.Type != nil {
+						k = e.Type.Kind + ":" + e.Type.Name
+					}
+					kinds[k] = true
+				}
+			}
+			if len(kinds) > 1 {
+				o.Violate("contract_response", "response:declared-error:several-error-types-on-one-status", "%s: errors of %d different types are mapped to status %d and openapi3.json documents one of them; this %d response does not conform: %v\n  headers %v\n  body %q", where, len(kinds), ex.Status, ex.Status, firstLine(rerr.Error()), ex.RespHeader, clipS(string(ex.RespBody)))
+				rerr = nil
+			}
+		}
 		if rerr != nil {
 			cls := "success"
 			if ex.Status >= 400 {
@@ -1822,4 +1856,120 @@ func throughMap(d *spec.Design, a *spec.Attr, path string) bool {
 		}
 	}
 	return t.Kind == spec.Map
+}
+
+
+// ---------------------------------------------------------------------------
+// declared errors with a designed type (string, or an object user type)
+// ---------------------------------------------------------------------------
+
+func customErrorValue(t *verifsim.Tape, d *spec.Design, sh *gen.ServiceHandle, e *spec.ErrorDef) (error, any, error) {
+	if e.Type.Kind == spec.String {
+		rt := sh.TypeByName(e.Name)
+		if rt == nil || rt.Kind() != reflect.String {
+			return nil, nil, fmt.Errorf("no generated string type for it")
+		}
+		model := gen.GenValid(t, d, &spec.Attr{Type: e.Type}, gen.GenOpts{Loc: gen.LocBody, NonEmpty: true})
+		rv := reflect.New(rt).Elem()
+		rv.SetString(model.(string))
+		ev, ok := rv.Interface().(error)
+		if !ok {
+			return nil, nil, fmt.Errorf("generated type %s is not an error", rt)
+		}
+		return ev, model, nil
+	}
+	u := d.UserType(e.Type.Name)
+	rt := sh.TypeByName(e.Type.Name)
+	if u == nil || rt == nil {
+		return nil, nil, fmt.Errorf("no generated type %s", e.Type.Name)
+	}
+	model, _ := gen.GenValid(t, d, u.Attr, gen.GenOpts{Loc: gen.LocBody}).(map[string]any)
+	if e.NameField != "" {
+		model[e.NameField] = e.Name
+	}
+	for a := range e.Headers {
+		if f := u.Attr.Type.Field(a); f != nil && model[a] != nil {
+			model[a] = gen.GenValid(t, d, f, gen.GenOpts{Loc: gen.LocHeader, NonEmpty: true, AvoidZero: f.HasDef && !f.Required})
+		}
+	}
+	rv, err := gen.ToGo(d, model, e.Type, reflect.PointerTo(rt))
+	if err != nil {
+		return nil, nil, err
+	}
+	ev, ok := rv.Interface().(error)
+	if !ok {
+		return nil, nil, fmt.Errorf("generated type %s is not an error", rv.Type())
+	}
+	return ev, model, nil
+}
+
+func judgeCustomError(o *engine.Outcome, w *world, d *spec.Design, s *spec.Service, m *spec.Method, ex *simnet.Exchange, mode string, want *spec.ErrorDef, model any, cerr error, where, sig string) {
+	cls := "string"
+	if want.Type.Kind == spec.User {
+		cls = "object"
+		if want.NameField != "" {
+			cls += "+name"
+		}
+		if len(want.Headers) > 0 {
+			cls += "+header"
+		}
+	}
+	if len(w.invoked) != 1 {
+		o.Violate("invocation_count", "invocations:"+sig, "%s: service invoked %d times", where, len(w.invoked))
+		return
+	}
+	if cerr == nil {
+		o.Violate("error_lost", "error_lost:"+mode+":custom-"+cls, "%s: the service returned the declared error %q (%s) but the client saw success (status %d)", where, want.Name, gen.Show(model), ex.Status)
+		return
+	}
+	o.Features["c05_declared_custom_"+cls]++
+	if ex.Status != want.Status {
+		o.Violate("error_status", "error_status:"+mode+":custom-"+cls, "%s: declared error %q went out with status %d, design says %d", where, want.Name, ex.Status, want.Status)
+	}
+	if h := ex.RespHeader.Get("goa-error"); h != want.Name {
+		o.Violate("error_header", "error_header:custom-"+cls, "%s: declared error %q went out with goa-error %q", where, want.Name, h)
+	}
+	if n := errName(cerr); n != want.Name {
+		o.Violate("error_name", "error_name:"+mode+":custom-"+cls, "%s: declared error %q (%s) reached the client as %q (%v); status %d body %q", where, want.Name, gen.Show(model), n, cerr, ex.Status, clipS(string(ex.RespBody)))
+		return
+	}
+	// the client's error value equals what the service returned (defaults filled in)
+	var got any
+	cv := reflect.ValueOf(cerr)
+	for cv.Kind() == reflect.Interface {
+		cv = cv.Elem()
+	}
+	if want.Type.Kind == spec.String {
+		for cv.Kind() == reflect.Ptr && !cv.IsNil() {
+			cv = cv.Elem()
+		}
+		if cv.Kind() != reflect.String {
+			o.Violate("error_fields", "error_type:custom-"+cls, "%s: declared error %q reached the client as a %T", where, want.Name, cerr)
+			return
+		}
+		got = cv.String()
+	} else {
+		got = gen.FromGo(d, cv, want.Type)
+	}
+	exp := gen.Expected(d, model, &spec.Attr{Type: want.Type})
+	if diff := gen.Diff(exp, got, ""); diff != "" {
+		o.Violate("error_fields", "error_fields:"+mode+":custom-"+cls, "%s: declared error %q changed in transit: %s\n  returned by service %s\n  seen by client      %s\n  status %d headers %v body %q", where, want.Name, diff, gen.Show(exp), gen.Show(got), ex.Status, ex.RespHeader, clipS(string(ex.RespBody)))
+	}
+	// placement: attributes mapped to headers travel there and not in the body
+	var body map[string]json.RawMessage
+	if want.Type.Kind == spec.User {
+		if err := json.Unmarshal(ex.RespBody, &body); err != nil {
+			o.Violate("error_body_malformed", "error_body_malformed:custom-"+cls, "%s: error response body %q does not parse (Content-Type %q)", where, clipS(string(ex.RespBody)), ex.RespHeader.Get("Content-Type"))
+			return
+		}
+		mo, _ := exp.(map[string]any)
+		for a, h := range want.Headers {
+			if _, in := body[a]; in {
+				o.Violate("error_placement", "error_placement:header-attr-in-body", "%s: attribute %q of error %q is designed to travel in header %s but is in the body %q", where, a, want.Name, h, clipS(string(ex.RespBody)))
+			}
+			if mo[a] != nil && ex.RespHeader.Get(h) == "" {
+				o.Violate("error_placement", "error_placement:header-missing", "%s: attribute %q of error %q (value %s) is designed to travel in header %s, which is absent", where, a, want.Name, gen.Show(mo[a]), h)
+			}
+		}
+	}
 }
